@@ -1,6 +1,7 @@
 package checks
 
 import (
+	"context"
 	"crypto/sha1"
 	"encoding/hex"
 	"errors"
@@ -9,6 +10,7 @@ import (
 	"os/exec"
 	"path/filepath"
 	"strings"
+	"time"
 
 	"github.com/AsaiYusuke/jsonpath"
 	"verif/internal/gen"
@@ -170,6 +172,12 @@ func parseOutcomeWith(text string, cfgs []jsonpath.Config, mutate bool) (string,
 
 // FreshOutcomeMain is `vcheck fresh-outcome <pi> <ci>`: the call made first in a fresh process.
 func FreshOutcomeMain(args []string) int {
+	// never outlive the worker that asked: if the library hangs on this call the process ends by itself (exit 9),
+	// an orphan spinning forever would slow every later run on the machine
+	go func() {
+		time.Sleep(90 * time.Second)
+		os.Exit(9)
+	}()
 	var pi, ci int
 	fmt.Sscanf(args[1], "%d", &ci)
 	hooksOn()
@@ -191,14 +199,18 @@ func (fc *freshCache) getText(c *harness.Ctx, text string, ci int) (string, bool
 	sum := sha1.Sum([]byte(text))
 	key := fmt.Sprintf("t%x-%d", sum[:10], ci)
 	if v, ok := fc.memText[key]; ok {
-		return v, v != "CRASH"
+		return v, v != "CRASH" && v != "TIMEOUT"
 	}
 	path := filepath.Join(fc.dir, key+".txt")
 	if b, err := os.ReadFile(path); err == nil {
 		fc.memText[key] = string(b)
 		return string(b), true
 	}
-	out, err := exec.Command(os.Args[0], "fresh-outcome", "hex:"+hex.EncodeToString([]byte(text)), fmt.Sprint(ci)).Output()
+	out, err := freshRun(c, "hex:"+hex.EncodeToString([]byte(text)), ci)
+	if err == errFreshTimeout {
+		fc.memText[key] = "TIMEOUT"
+		return "TIMEOUT", false
+	}
 	if err != nil {
 		c.Violation(fmt.Sprintf("fresh-crash path=%q cfg=%d", text, ci), "Parse (or the returned function on the probe documents) crashed a fresh process",
 			map[string]interface{}{"path": text, "config": ci, "error": err.Error()})
@@ -212,6 +224,23 @@ func (fc *freshCache) getText(c *harness.Ctx, text string, ci int) (string, bool
 	return string(out), true
 }
 
+var errFreshTimeout = errors.New("fresh process did not answer")
+
+// freshRun runs `vcheck fresh-outcome` with a limit. A fresh process that does not answer (it ends itself after 90 s) is
+// NOT judged here - whether a library call returns is C02's / C03's verdict for the same input, with their confirmation
+// protocol; the history is skipped and the run says so.
+func freshRun(c *harness.Ctx, what string, ci int) ([]byte, error) {
+	ctx, cancel := context.WithTimeout(context.Background(), 120*time.Second)
+	defer cancel()
+	cmd := exec.CommandContext(ctx, os.Args[0], "fresh-outcome", what, fmt.Sprint(ci))
+	out, err := cmd.Output()
+	if ee, ok := err.(*exec.ExitError); ctx.Err() != nil || ok && ee.ExitCode() == 9 {
+		c.Inconclusive("a fresh-process call did not answer within its limit (no verdict here; hangs are judged by C02/C03): " + short(what, 80))
+		return nil, errFreshTimeout
+	}
+	return out, err
+}
+
 type freshCache struct {
 	dir     string
 	mem     map[[2]int]string
@@ -220,14 +249,18 @@ type freshCache struct {
 
 func (fc *freshCache) get(c *harness.Ctx, pi, ci int) (string, bool) {
 	if v, ok := fc.mem[[2]int{pi, ci}]; ok {
-		return v, true
+		return v, v != "CRASH" && v != "TIMEOUT"
 	}
 	path := filepath.Join(fc.dir, fmt.Sprintf("%d-%d.txt", pi, ci))
 	if b, err := os.ReadFile(path); err == nil {
 		fc.mem[[2]int{pi, ci}] = string(b)
 		return string(b), true
 	}
-	out, err := exec.Command(os.Args[0], "fresh-outcome", fmt.Sprint(pi), fmt.Sprint(ci)).Output()
+	out, err := freshRun(c, fmt.Sprint(pi), ci)
+	if err == errFreshTimeout {
+		fc.mem[[2]int{pi, ci}] = "TIMEOUT"
+		return "TIMEOUT", false
+	}
 	if err != nil {
 		// the fresh process died: that is a crash of Parse on its own
 		c.Violation(fmt.Sprintf("fresh-crash path=%q cfg=%d", histPaths[pi], ci), "Parse (or the returned function on the probe documents) crashed a fresh process",
